@@ -148,7 +148,8 @@ def client_wire(loop, url):
     old = getattr(loop, "create_connection")
     loop.create_connection = create_connection
     try:
-        task = loop.create_task(_CLIENT["c"]._get_single(url))
+        single = getattr(_CLIENT["c"], "_get_single", None)
+        task = loop.create_task(single(url) if single is not None else _CLIENT["c"].get(url, follow_redirects=False))
         loop.run_idle()
         sent = bytes(box["tr"].wire) if "tr" in box else b""
         if "tr" in box and not box["tr"].lost:
